@@ -299,7 +299,7 @@ def run(ctx):
     if ctx.thorough:
         parallel(ctx, shard, [{'n': 1500} for _ in range(16)])
     else:
-        parallel(ctx, shard, [{'n': 40} for _ in range(8)])
+        parallel(ctx, shard, [{'n': 120} for _ in range(12)])
 
 
 def replay(case):
